@@ -23,8 +23,31 @@ function configs (rng) {
     [1, cfg({ prefix: null, chain: true, comments: true })],
     [1, cfg({ prefix: '', methods: [] })],
     [1, { csiMethods: [] }],
-    [1, cfg({ prefix: 'x'.repeat(300), chain: true })]
+    [1, cfg({ prefix: 'x'.repeat(300), chain: true })],
+    [2, hostileConfig(rng)]
   ])
+}
+
+// configurations nobody should write: names that are not identifiers, empty and enormous names, duplicates, odd verbosity
+// strings. Only totality is judged for them (the output need not be valid JavaScript when the hook names are not).
+const ODD_NAMES = ['', ' ', 'a-b', 'x y', 'class', '}); throw 1; ({', '__proto__', 'constructor', 'ñ€😀', '\u0061', 'a'.repeat(5000), '0', '\n', '`${x}`', "'", '"', '\\', '\uFEFF', 'plusOperator', 'tplOperator', 'trim']
+function hostileConfig (rng) {
+  const c = {}
+  if (rng.bool(0.7)) c.localVarPrefix = rng.pick(ODD_NAMES)
+  const n = rng.pick([0, 1, 2, 5, 40])
+  c.csiMethods = []
+  for (let i = 0; i < n; i++) {
+    const m = { src: rng.bool(0.5) ? rng.pick(STRING_METHODS.concat(['plusOperator', 'tplOperator'])) : rng.pick(ODD_NAMES) }
+    if (rng.bool(0.6)) m.dst = rng.pick(ODD_NAMES)
+    if (rng.bool(0.4)) m.operator = rng.bool()
+    if (rng.bool(0.3)) m.allowedWithoutCallee = rng.bool()
+    c.csiMethods.push(m)
+  }
+  if (rng.bool(0.5)) c.telemetryVerbosity = rng.pick(['', 'debug', 'DEBUG ', 'OFF', 'off', 'nonsense', 'INFORMATION', 'MANDATORY', 'ñ'])
+  if (rng.bool(0.5)) c.chainSourceMap = rng.bool()
+  if (rng.bool(0.5)) c.comments = rng.bool()
+  if (rng.bool(0.5)) c.literals = rng.bool()
+  return c
 }
 
 function baseProgram (rng, files) {
@@ -150,7 +173,7 @@ function judge (req, resp, profile, rep, bump) {
 module.exports = {
   id: 'C13',
   level: 'fault_enumeration',
-  rule: 'requests = hostile text (token-level mutations of corpus/catalogue/random programs, random printable/UTF-8 text, dictionary soup, nesting up to depth 64, 100 KB files) x hostile file names (empty, "/", no directory, trailing slash, non-ASCII, 5000 chars) x 9 configurations x source-map references (data URLs valid/invalid/empty/index map, absolute, relative, junk) whose reader outcome is drawn from the fault plan: content valid / index map / truncated / empty / invalid JSON / invalid VLQ / non-UTF-8 / NotFound / PermissionDenied / IsADirectory / Other / Interrupted / failure after k bytes / generated 2 MB map, with parent() = node-dirname | std | none. Each request runs behind catch_unwind in rwharness; monitors: panic (message+location), process death (signal, sanitizer report), watchdog escalated to a 60 s isolated re-run (bounded-progress restatement of never-hangs), error without diagnostic. Profiles: release (verdict), valgrind memcheck (sample), and in thorough debug + AddressSanitizer builds. distinct_nontrivial = distinct requests answered.',
+  rule: 'requests = hostile text (token-level mutations of corpus/catalogue/random programs, random printable/UTF-8 text, dictionary soup, nesting up to depth 64, 100 KB files) x hostile file names (empty, "/", no directory, trailing slash, non-ASCII, 5000 chars) x 9 ordinary configurations plus randomly drawn hostile ones (hook / method / prefix names that are empty, not identifiers, reserved words, 5000 characters, non-ASCII, duplicates; odd verbosity spellings) x source-map references (data URLs valid/invalid/empty/index map, absolute, relative, junk) whose reader outcome is drawn from the fault plan: content valid / index map / truncated / empty / invalid JSON / invalid VLQ / non-UTF-8 / NotFound / PermissionDenied / IsADirectory / Other / Interrupted / failure after k bytes / generated 2 MB map, with parent() = node-dirname | std | none. Each request runs behind catch_unwind in rwharness; monitors: panic (message+location), process death (signal, sanitizer report), watchdog escalated to a 60 s isolated re-run (bounded-progress restatement of never-hangs), error without diagnostic. Profiles: release (verdict), valgrind memcheck (sample), and in thorough debug + AddressSanitizer builds. distinct_nontrivial = distinct requests answered.',
   assumptions: [
     'never loops is decided only in bounded form: a request (<=256 KB) must return within 60 s when re-run alone',
     'nesting depth is capped at 64 by the generators (exhaustion by nesting depth is out of scope per the statement)',
